@@ -291,3 +291,12 @@ _patch('C13', 'level_note', 'and A-classid (no class address reuse while cached)
 _patch('C16', 'level_note', 'Not decided: the ~150 native bodies themselves (that each assumes no more than its declared signature),',
        'Native bodies: for 128 of the 131 natives of laythe_lib a GENERATED obligation says that the argument indexings and unwraps the body performs unconditionally are covered by what the gate admits for its own declared signature (natargs unit; D28 print() and D29 isA? found and fixed, D27 — List.collect / Tuple.collect / iter.zip / iter.chain cast Object-kind arguments to enumerators unchecked — is a listed finding). Not decided: unwraps reached only conditionally (dropped from the slice: they may be guarded), results of callbacks (print(A()) with a non-string str()), Sin / Cos / Rand (declared through another macro),')
 _patch('C11', 'level_text', 'so a native body only runs on arguments of the declared kinds.', 'so a native body only runs on arguments of the declared kinds; and the unconditional argument unwraps of 128 native bodies are covered by their own declared signatures (natargs unit, generated).')
+
+# ---- narrowc / parserd limits / importpath / iterops ------------------------------------------------------------------------------------------
+_patch('C15', 'level_text', 'the parser keeps its loop depth balanced', 'an argument, item or parameter list that reaches its maximum is a diagnostic and its loop ends (parserd: fewer than 255 arguments / parameters, fewer than 65535 items), so the counts Compiler::call / list / tuple / map narrow to u8 / u16 are exact (narrowc unit); the parser keeps its loop depth balanced')
+_patch('C18', 'level_text', 'Fiber::print_error prints every frame', 'A call expression ends at its own closing parenthesis (parserd: Parser::call), which is where the line of its Call instruction is looked up; Fiber::print_error looks each line up at the byte BEFORE the saved instruction pointer and prints every frame')
+_patch('C12', 'level_note', 'A-delim', 'A-delim (discharged for Compiler::call in the narrowc unit: every argument is followed by its delimiter and Call(n) comes right after the last one)')
+_patch('C06', 'level_text', '68 real op handlers are tied to the effect table entry of their opcode (O-06.7). ', '70 real op handlers are tied to the effect table entry of their opcode (O-06.7), among them both paths of IterNext / IterCurrent (iterops unit: exactly the two operand bytes are consumed); the count operands of Call / List / Tuple / Map are exactly the number of compiled arguments (narrowc unit). ')
+_patch('C17', 'level_text', 'a loaded module enters the cache under its resolved path;', 'a loaded module enters the cache under its resolved path, which is every segment of the import path in order joined by "/" (importpath unit: the real Vm::full_import_path over character sequences);')
+_patch('C17', 'level_note', 'path resolution (cache-key collisions),', 'path resolution beyond the cache key (the file-system lookup),')
+_patch('C15', 'level_text', 'the parser keeps its loop depth balanced', 'the compiler limits are diagnostics (limitsc unit: make_constant / emit_constant / add_capture return an index that names exactly the constant or capture asked for, or record a diagnostic; the u8 capture counter cannot wrap); the parser keeps its loop depth balanced')
